@@ -260,6 +260,43 @@ thread_local! {
 pub fn run_line(t: &[&str]) -> Option<MsgVerdict> {
     let mut fails = vec![];
     match t {
+        ["tsnew", types] => {
+            // a RecordTypeSet without original encoding, encoded afresh (windows / bitmaps)
+            use hickory_proto::dnssec::rdata::NSEC;
+            let ts: Vec<u16> = if *types == "-" {
+                vec![]
+            } else {
+                types.split(',').map(|x| x.parse().ok()).collect::<Option<_>>()?
+            };
+            let n = NSEC::new(hickory_proto::rr::Name::root(), ts.iter().map(|c| hickory_proto::rr::RecordType::from(*c)));
+            let mut buf = Vec::new();
+            let res = {
+                let mut enc = BinEncoder::new(&mut buf);
+                n.emit(&mut enc)
+            };
+            let out = match res {
+                Ok(()) => {
+                    // oracle: the fresh encoding decodes to the same set of types
+                    let mut want: Vec<u16> = ts.clone();
+                    want.sort();
+                    want.dedup();
+                    match RData::read(BinDecoder::new(&buf), hickory_proto::rr::RecordType::NSEC) {
+                        Ok(RData::DNSSEC(DNSSECRData::NSEC(back))) => {
+                            let mut got: Vec<u16> = back.type_bit_maps().map(u16::from).collect();
+                            got.sort();
+                            if got != want {
+                                fails.push(format!("fresh RecordTypeSet encoding decodes to {got:?}, built from {want:?}"));
+                            }
+                        }
+                        Ok(_) => fails.push("fresh NSEC encoding decodes to another variant".into()),
+                        Err(e) => fails.push(format!("fresh RecordTypeSet encoding does not decode: {e}")),
+                    }
+                    format!("ok {}", hex(&buf))
+                }
+                Err(_) => "err".into(),
+            };
+            Some(MsgVerdict { out, fails, class: "", n_limits: 0, n_truncated: 0, n_err: 0, n_full: 1, kind: "tsnew", len: buf.len() })
+        }
         ["msg", hx, limits] => {
             let bytes = unhex(hx)?;
             let ls: Vec<u16> = limits.split(',').map(|x| x.parse().ok()).collect::<Option<_>>()?;
